@@ -2,11 +2,11 @@ NA = {}
 chk('C02', 'exploration',
     'All 1312 (version, level, mask) triples are enumerated exhaustively with several data contents each; automatic choices are sampled with Hypothesis. Geometry, function patterns, both format copies, both version copies and all metadata are compared with values computed from the standard (BCH/Golay from the polynomials, Annex E positions generated). Exhaustive over the triple space, sampled over data.',
     'Trusted: vlib/qrref.py (validated against the module grids printed in ISO/IEC 18004 and by re-building them bit-exactly); sampled data only.',
-    'exhaustive enumeration + Hypothesis search against an ISO 18004 reference model', 'DESIGN.md 4/C02')
+    'exhaustive enumeration + Hypothesis search (+ atheris coverage-guided fuzzing in the thorough tier) against an ISO 18004 reference model', 'DESIGN.md 4/C02')
 chk('C01', 'exploration',
     'Generated contents x option combinations are encoded by segno and read back by an independent ISO 18004 reference decoder; the payload bytes must equal the bytes the statement prescribes (policy model) and ECI headers are compared with a table typed in from the AIM register. Sampled: it shows absence of round-trip defects only on the generated cases (class distribution in the evidence).',
     'Trusted: vlib/qrref.py decoder (validated against the ISO figures), Python codecs, typed-in ECI table. Inputs are sampled, not exhaustive.',
-    'Hypothesis property-based round trip through an independent reference decoder', 'DESIGN.md 4/C01')
+    'Hypothesis property-based round trip (+ atheris coverage-guided fuzzing in the thorough tier) through an independent reference decoder', 'DESIGN.md 4/C01')
 chk('C03', 'fault_enumeration',
     'All 168 (version, level) block layouts are enumerated; for each, zero syndromes over the re-derived Table 9 de-interleaving are required for several data contents, and injected codeword errors (max weight per block, random, bursts on the matrix; all single-codeword errors at every position) must be corrected by an independent Berlekamp-Massey decoder to the identical data bits. Error patterns of weight >= 2 are sampled.',
     'Trusted: GF(256)/RS implementation in vlib/qrref.py (self-tested), Table 9 rows typed in from the standard. Multi-error patterns sampled; single errors enumerated (<= v10 quick, all thorough).',
@@ -14,11 +14,11 @@ chk('C03', 'fault_enumeration',
 chk('C04', 'exploration',
     'Both sides of every capacity boundary (5 modes x 5 levels x 3 micro settings x all admissible versions), every boundary with an exact / too small / larger requested version, and eci=True boundaries are enumerated exhaustively against a capacity model derived from ISO Tables 2, 3, 7; multi-part contents are sampled and re-costed from the decoded segment structure. Every accepted symbol is decoded to show that nothing was cut.',
     'Trusted: capacity/bit-length model in vlib/qrref.py + vlib/common.py, reference decoder. Exhaustive over boundaries for mode-pure content, sampled for mixed content.',
-    'exhaustive boundary enumeration + Hypothesis search against a capacity reference model', 'DESIGN.md 4/C04')
+    'exhaustive boundary enumeration + Hypothesis search (+ atheris coverage-guided fuzzing in the thorough tier) against a capacity reference model', 'DESIGN.md 4/C04')
 chk('C05', 'exploration',
     'Exact-fit lengths of every level of the listed versions are enumerated x requested level x boost x version requested/not; the level is read from the format bits and compared with the highest level whose capacity (model) holds the decoded segment structure; the version is compared with the boost_error=False result. Hypothesis adds free and multi-part cases.',
     'Trusted: capacity model, reference decoder. Enumeration over exact-fit lengths (quick: Micro, 1-10, 20, 27, 40; thorough: all), other lengths sampled.',
-    'enumeration of exact-fit lengths + Hypothesis search, level decoded from the format information', 'DESIGN.md 4/C05')
+    'enumeration of exact-fit lengths + Hypothesis search (+ atheris coverage-guided fuzzing in the thorough tier), level decoded from the format information', 'DESIGN.md 4/C05')
 chk('C06', 'exploration',
     'For generated symbols (all versions) the 8/4 candidate maskings are rebuilt from the emitted matrix by unmask/remask and scored by an independent implementation of ISO 7.8.3; segno must have picked the lowest-numbered optimum. Requested masks are checked for all (version, level, mask) triples (thorough) via format bits and zero syndromes after unmasking, also for Structured Append sequences.',
     'Trusted: vlib/penalty.py (my reading of 7.8.3, two stated oracle decisions), vlib/qrref.py. Symbols are sampled.',
@@ -30,7 +30,7 @@ chk('C07', 'exploration',
 chk('C13', 'exploration',
     'Contents are steered so that every reachable (symbol class x residue x distance-to-capacity) cell is hit; the data bits after the last decoded segment are compared bit by bit with an ISO 7.4.9/7.4.10 tail model, remainder bits must be zero. One known finding (K1) is matched by an exact tail model and reported, everything else is a violation.',
     'Trusted: iso_tail model and decoder in vlib/qrref.py (the grids printed in the standard reproduce bit-exactly). Sampled over contents; the cell table is in the evidence.',
-    'steered enumeration + Hypothesis search, tail compared with an ISO model', 'DESIGN.md 4/C13')
+    'steered enumeration + Hypothesis search (+ atheris coverage-guided fuzzing in the thorough tier), tail compared with an ISO model', 'DESIGN.md 4/C13')
 chk('C08', 'exploration',
     'Generated contents of nine classes and lengths from 1 character to 16 symbols x version or symbol_count x level x boost x mask x encoding: every returned symbol is checked structurally (C02), by syndromes (C03) and decoded; header position/total/parity, the concatenated payload and the symbol count / version promises are compared with the statement; refusals are judged by a per-symbol capacity model. One known finding (K3, 16-symbol limit of the version path) is matched narrowly.',
     'Trusted: reference decoder, capacity model. Sampled; per-symbol boundary lengths for versions 1-4 (1-10 thorough) enumerated.',
@@ -54,7 +54,7 @@ chk('C12', 'exploration',
 chk('C14', 'exploration',
     'The documented argument domains of the four factories, including boundary and malformed values and every documented exclusion, are generated / enumerated; outcomes other than a valid symbol (C01-C03 checks), ValueError or LookupError (unknown codec) are bucketed by exception type and innermost segno frame. A metamorphic spelling relation (letter case, numeric strings) must give identical symbols. Every output kind x malformed colour / scale / border / kind value is enumerated and must raise ValueError. The CLI is run in-process: status 0 only with a parsable output, refusals of make as exit status 1 with the library message. A 120 s watchdog per case detects endless loops.',
     'Domain = documented argument types (wrong types are not generated). Sampled, with enumerated grids for exclusions and serializer validation.',
-    'Hypothesis search + enumeration with exception-type contract, metamorphic spelling relation, CLI exit contract', 'DESIGN.md 4/C14')
+    'Hypothesis search + enumeration (+ atheris coverage-guided fuzzing of the factories in the thorough tier) with exception-type contract, metamorphic spelling relation, CLI exit contract', 'DESIGN.md 4/C14')
 chk('C16', 'exploration',
     'Field values weighted towards delimiters, escapes and line breaks are generated for the WIFI, MeCard, vCard, geo, mailto and EPC factories; the payloads are parsed back by own parsers (unescaped-; splitting, vCard line structure, URI grammars, EPC069-12 line layout with Decimal equality and the 331 byte / length limits); every second case also builds the symbol with the make_* factory and decodes it with the reference decoder (EPC: level M, version <= 13).',
     'Trusted: parsers in vlib/props/c16.py, reference decoder. Sampled.',
